@@ -9,6 +9,7 @@ package main
 import (
 	"bufio"
 	"bytes"
+	"encoding/binary"
 	"encoding/json"
 	"fmt"
 	stdio "io"
@@ -28,6 +29,7 @@ import (
 	"github.com/nspcc-dev/neo-go/pkg/util"
 	"github.com/nspcc-dev/neo-go/pkg/vm/stackitem"
 	"github.com/nspcc-dev/neo-go/pkg/vm/vmstate"
+	"github.com/pierrec/lz4"
 )
 
 func init() {
@@ -354,6 +356,119 @@ func c17Extremes(name string) [][]byte {
 		mk := func(b ...byte) []byte { return append(append([]byte{}, p...), b...) }
 		return [][]byte{mk(0, 0), mk(0, 1), mk(0, 2), mk(0, 0xff), mk(1, 0, 1), mk(1, 1, 0, 1), mk(1, 1, 1, 0, 1), mk(2, 0), mk(2, 1, 0x20), mk(2, 16), mk(2, 17),
 			mk(2, 0xfd, 1, 0, 0x20), mk(3, 2, 0x20, 2, 1, 0x20), mk(3, 1, 2, 1, 2, 1, 0x20), mk(0x20), mk(0x21), mk(0x18), mk(0x19, 2), mk(0x19, 4)}
+	case "mptnode":
+		h := append([]byte{3}, make([]byte, 32)...)
+		ext := func(klen int, next []byte) []byte {
+			w := io.NewBufBinWriter()
+			w.WriteB(1)
+			w.WriteVarBytes(make([]byte, klen))
+			w.WriteBytes(next)
+			return w.Bytes()
+		}
+		chain := func(n int) []byte { // n nested extension nodes with one-nibble keys, then the empty node
+			b := []byte{4}
+			for i := 0; i < n; i++ {
+				b = append([]byte{1, 1, 7}, b...)
+			}
+			return b
+		}
+		branch := func(child []byte) []byte {
+			b := []byte{0}
+			for i := 0; i < 17; i++ {
+				if i == 3 {
+					b = append(b, child...)
+				} else {
+					b = append(b, 4)
+				}
+			}
+			return b
+		}
+		return [][]byte{{4}, h, {3}, {2, 0}, {2, 1, 9}, {5}, {0}, branch(h), branch([]byte{2, 1, 9}), branch([]byte{2, 0}), branch(branch(h)), branch(branch(h))[:20],
+			ext(0, h), ext(1, h), ext(136, h), ext(137, h), ext(3, []byte{4}), ext(3, []byte{2, 1, 1}), ext(2, ext(2, h)), {1, 0xfd, 3, 0, 1, 2, 3, 4}, {1, 0xfe, 3, 0, 0, 0, 1, 2, 3, 4},
+			{2, 0xfe, 0x03, 0, 1, 0}, {2, 0xfe, 0x04, 0, 1, 0}, {2, 0xfd, 1, 0, 9}, chain(135), chain(136), chain(137), chain(138), chain(400)}
+	case "mptroot":
+		base := append(append([]byte{0, 5, 0, 0, 0}, make([]byte, 32)...))
+		return [][]byte{append(bytes.Clone(base), 0), append(bytes.Clone(base), 1, 0, 0), append(bytes.Clone(base), 2, 0, 0, 0, 0), append(bytes.Clone(base), 0xfd, 1, 0, 1, 7, 0),
+			append(bytes.Clone(base), 0xfd, 0, 0), base, append(bytes.Clone(base), 1, 0xfd, 1, 4), append(append(bytes.Clone(base), 1, 0xfd, 0, 4), make([]byte, 1025)...)}
+	case "getblocks":
+		mk := func(c uint16) []byte { return append(make([]byte, 32), byte(c), byte(c>>8)) }
+		return [][]byte{mk(0), mk(1), mk(500), mk(0x7fff), mk(0x8000), mk(0xfffe), mk(0xffff), mk(1)[:33]}
+	case "getblockbyindex":
+		mk := func(c uint16) []byte { return []byte{1, 0, 0, 0, byte(c), byte(c >> 8)} }
+		return [][]byte{mk(0), mk(1), mk(2000), mk(2001), mk(0x7fff), mk(0x8000), mk(0xfffe), mk(0xffff)}
+	case "inventory", "mptinventory":
+		pre := []byte{}
+		if name == "inventory" {
+			pre = []byte{0x2b}
+		}
+		mk := func(cnt []byte, n int) []byte { return append(append(bytes.Clone(pre), cnt...), make([]byte, 32*n)...) }
+		out := [][]byte{mk([]byte{0}, 0), mk([]byte{1}, 1), mk([]byte{2}, 1), mk([]byte{0xfd, 1, 0}, 1), mk([]byte{32}, 32), mk([]byte{33}, 33), mk([]byte{0xfd, 0xf4, 1}, 2), mk([]byte{0xfd, 0xf5, 1}, 2), mk([]byte{0xff, 0xff, 0xff, 0xff, 0xff, 0xff, 0xff, 0xff, 0xff}, 1)}
+		if name == "inventory" {
+			out = append(out, []byte{0x00, 0}, []byte{0xff, 1})
+		}
+		return out
+	case "headers", "mptdata", "addrlist":
+		return [][]byte{{0}, {0xfd, 0xd1, 0x07}, {0xfd, 0xd0, 0x07}, {0xfd, 0xc9, 0}, {0xfd, 0xc8, 0}, {0xfe, 0xff, 0xff, 0xff, 0xff}, {0xff, 0, 0, 0, 0, 0, 0, 0, 0x80}, {1}, {1, 0}, {2, 1, 5, 0}, {1, 0xfe, 0, 0, 0, 1}, {1, 0xfe, 1, 0, 0, 1, 7}}
+	case "version", "addr":
+		pre := make([]byte, 16)
+		if name == "addr" {
+			pre = make([]byte, 20)
+		} else {
+			pre = append(pre, 0) // empty user agent
+		}
+		mk := func(caps ...byte) []byte { return append(bytes.Clone(pre), caps...) }
+		out := [][]byte{mk(0), mk(1, 1, 0x50, 0), mk(2, 1, 1, 0, 1, 2, 0), mk(2, 1, 1, 0, 2, 2, 0), mk(2, 0x10, 1, 0, 0, 0, 0x10, 2, 0, 0, 0), mk(1, 0x11, 0), mk(1, 0x11, 1), mk(2, 0x11, 0, 0x11, 0),
+			mk(1, 3, 0), mk(1, 3, 5), mk(2, 3, 0, 3, 0), mk(2, 0xf0, 0, 0xf0, 1, 9), mk(1, 0x77, 0xfd, 1, 0, 9), mk(33), mk(append([]byte{32}, bytes.Repeat([]byte{0xf1, 0}, 32)...)...), mk(append([]byte{33}, bytes.Repeat([]byte{0xf1, 0}, 33)...)...)}
+		if name == "version" {
+			ua := func(n int) []byte {
+				w := io.NewBufBinWriter()
+				w.WriteBytes(make([]byte, 16))
+				w.WriteVarBytes(make([]byte, n))
+				w.WriteB(0)
+				return w.Bytes()
+			}
+			out = append(out, ua(1024), ua(1025))
+		}
+		return out
+	case "extensible":
+		mk := func(cat int, pad byte) []byte {
+			w := io.NewBufBinWriter()
+			w.WriteVarBytes(bytes.Repeat([]byte{'c'}, cat))
+			w.WriteU32LE(1)
+			w.WriteU32LE(2)
+			w.WriteBytes(make([]byte, 20))
+			w.WriteVarBytes([]byte{1, 2, 3})
+			w.WriteB(pad)
+			w.WriteBytes([]byte{1, 7, 0})
+			return w.Bytes()
+		}
+		return [][]byte{mk(0, 1), mk(4, 1), mk(32, 1), mk(33, 1), mk(4, 0), mk(4, 2), mk(4, 1)[:30], append([]byte{0xfd, 4, 0}, mk(4, 1)[1:]...)}
+	case "notification":
+		pre := append(make([]byte, 20), 2, 'e', 'v')
+		mk := func(item ...byte) []byte { return append(bytes.Clone(pre), item...) }
+		return [][]byte{mk(0x40, 0), mk(0x41, 0), mk(0x41, 2, 0, 0x20, 1), mk(0x40, 1, 0x21, 1, 5), mk(0x48, 0), mk(0x21, 1, 5), mk(0x00), mk(0x40, 1, 0x60), mk(0x40, 1, 0x10, 1), mk(0x40, 1, 0xff),
+			mk(0x40, 0xfd, 0xff, 0x07), append(mk(0x40, 0xfd, 0xff, 0x07), make([]byte, 2047)...), append(mk(0x40, 0xfd, 0x00, 0x08), make([]byte, 2048)...), mk(0x40, 2, 0x48, 1, 0x40, 0, 0, 0)}
+	case "appexec":
+		hd := func(state byte, stack ...byte) []byte {
+			b := append(make([]byte, 32), 0x40, state)
+			b = append(b, 1, 0, 0, 0, 0, 0, 0, 0)
+			return append(b, stack...)
+		}
+		tail := []byte{0, 0} // no events, empty fault string
+		cat := func(xs ...[]byte) []byte { return bytes.Join(xs, nil) }
+		inv := append(append(make([]byte, 20), 1, 'm', 2, 0, 0, 0), 0, 1, 0x00)
+		invT := append(append(make([]byte, 20), 1, 'm', 2, 0, 0, 0), 7)
+		return [][]byte{cat(hd(1, 0), tail), cat(hd(1, 1, 0x60), tail), cat(hd(1, 2, 0x10, 7, 0xff), tail), cat(hd(1, 1, 0x40, 2, 0x60, 0x10, 0xfd, 1, 0), tail), cat(hd(1, 1, 0x48, 1, 0x60, 0), tail),
+			cat(hd(2, 1, 0x21, 0x21), tail), cat(hd(0x81, 0), tail, []byte{0}), cat(hd(0x81, 0), tail, []byte{1}, inv), cat(hd(0x81, 0), tail, []byte{1}, invT), cat(hd(0x80, 0), tail), cat(hd(0xff, 0), tail, []byte{0}),
+			cat(hd(1, 0xfd, 0x00, 0x08), make([]byte, 2048), tail), cat(hd(1, 0xfd, 0x01, 0x08), make([]byte, 2049), tail), cat(hd(1, 0), []byte{1}, make([]byte, 20), []byte{0, 0x40, 0}, []byte{0}),
+			cat(hd(1, 0), []byte{1}, make([]byte, 20), []byte{0, 0x41, 1, 0x60}, []byte{0}), cat(hd(1, 0), []byte{0, 3, 'e', 'r', 'r'})}
+	case "nef":
+		return [][]byte{{0x4e, 0x45, 0x46, 0x33}, {0x4e, 0x45, 0x46, 0x34}, make([]byte, 80)}
+	case "p2pmessage":
+		return [][]byte{{0, 1, 0}, {0, 0x10, 0}, {0, 0x25, 0}, {0, 0x32, 0}, {0, 0x18, 0}, {0, 0x00, 0}, {1, 1, 0}, {0xff, 1, 0}, {0, 0x99, 1, 0}, {0, 0x2f, 1, 0}, {0, 0x18, 12, 1, 0, 0, 0, 2, 0, 0, 0, 3, 0, 0, 0},
+			{0, 0x18, 13, 1, 0, 0, 0, 2, 0, 0, 0, 3, 0, 0, 0, 9}, {0, 0x18, 11, 1, 0, 0, 0, 2, 0, 0, 0, 3, 0, 0}, {0, 0x18, 0xfd, 12, 0, 1, 0, 0, 0, 2, 0, 0, 0, 3, 0, 0, 0}, {2, 0x19, 12, 1, 0, 0, 0, 2, 0, 0, 0, 3, 0, 0, 0},
+			{0, 0x18, 0xfe, 0, 0, 0, 2}, {0, 0x18, 0xfe, 1, 0, 0, 2}, {0, 0x18, 0xff, 0xff, 0xff, 0xff, 0xff, 0xff, 0xff, 0xff, 0xff}, {1, 0x18, 3, 1, 2, 3}, {1, 0x18, 5, 12, 0, 0, 0, 0},
+			{0, 0x27, 34, 0x2b, 1, 1, 2, 3, 4, 5, 6, 7, 8, 9, 10, 11, 12, 13, 14, 15, 16, 17, 18, 19, 20, 21, 22, 23, 24, 25, 26, 27, 28, 29, 30, 31, 32}, {0, 0x2b, 1, 0}, {0, 0x24, 34, 1, 2, 3}}
 	case "tx/bytes", "tx/stream":
 		return nil
 	}
@@ -377,7 +492,63 @@ type c17Input struct {
 }
 
 var c17Modelled = map[string]string{"tx/bytes": "CTxDec 0", "tx/stream": "CTxDec 1", "signer": "CSignerDec", "cond": "CCondDec", "attr": "CAttrDec",
-	"witness": "CWitnessDec", "header": "CHeaderDec false", "header/sr": "CHeaderDec true", "block": "CBlockDec false", "block/sr": "CBlockDec true", "item": "CItemDec"}
+	"witness": "CWitnessDec", "header": "CHeaderDec false", "header/sr": "CHeaderDec true", "block": "CBlockDec false", "block/sr": "CBlockDec true", "item": "CItemDec",
+	// extension round: MPT nodes, state root, NEF, P2P payloads (by command byte), the frame
+	"notification": "CNotifDec", "appexec": "CAerDec", "mptnode": "CMptDec", "mptroot": "CMptRootDec", "nef": "CNefDec", "addr": "CNetAddrDec", "p2pmessage": "CFrameDec",
+	"version": "CPayloadDec 0", "addrlist": "CPayloadDec 17", "inventory": "CPayloadDec 39", "getblocks": "CPayloadDec 36", "getblockbyindex": "CPayloadDec 41",
+	"headers": "CPayloadDec 33", "ping": "CPayloadDec 24", "mptinventory": "CPayloadDec 81", "mptdata": "CPayloadDec 82", "extensible": "CPayloadDec 46"}
+
+// MPTData announces its element count without a maximum (the decoder appends element by element and stops at the end of
+// the input): an announced count above the input length is refused by both sides, but the model would count it in unary
+func c17UnboundedCount(typ string, b []byte) bool {
+	if typ == "p2pmessage" {
+		if len(b) < 3 || b[1] != 0x52 || b[0]&1 == 1 {
+			return false
+		}
+		r := io.NewBinReaderFromBuf(b[2:])
+		_ = r.ReadVarUint()
+		if r.Err != nil {
+			return false
+		}
+		b = b[len(b)-r.Len():]
+	} else if typ != "mptdata" {
+		return false
+	}
+	r := io.NewBinReaderFromBuf(b)
+	n := r.ReadVarUint()
+	return r.Err == nil && n > uint64(len(b))
+}
+
+// commands whose payload the frame model does not carry (merkleblock, notary request): frames with them are checked directly only
+func c17FrameUnmodelled(b []byte) bool { return len(b) > 1 && (b[1] == 0x38 || b[1] == 0x50) }
+
+// what network.decompress gives for the raw payload of a frame (pkg/network/compress.go: 4-byte little-endian length
+// of the uncompressed data, then one lz4 block); None when the frame is not compressed or the data does not decompress
+func c17FrameDecompressed(b []byte) string {
+	if len(b) < 3 || b[0]&1 == 0 {
+		return "None"
+	}
+	r := io.NewBinReaderFromBuf(b[2:])
+	l := r.ReadVarUint()
+	if r.Err != nil || l == 0 || l > 0x02000000 {
+		return "None"
+	}
+	raw := make([]byte, l)
+	r.ReadBytes(raw)
+	if r.Err != nil || len(raw) < 4 {
+		return "None"
+	}
+	n := binary.LittleEndian.Uint32(raw[:4])
+	if n > 0x02000000 {
+		return "None"
+	}
+	dest := make([]byte, n)
+	size, err := lz4.UncompressBlock(raw[4:], dest)
+	if err != nil || uint32(size) != n || n > 6000 {
+		return "None"
+	}
+	return "(Some " + coqBytes(dest) + ")"
+}
 
 var c17ECErr = regexp.MustCompile(`computing Y|not on the|bigger than P|point at infinity|not correct`)
 
@@ -515,7 +686,9 @@ func (x *c17Runner) runCase(kind string, in c17Input) {
 			co.add("dec", tag, res.OK || len(input) > 2, in, res, "direct "+in.Type+" "+hx(input))
 			return
 		}
-		if !ok || !modelled || len(input) > 6000 || (!res.OK && c17ECErr.MatchString(res.Err)) {
+		// (a decode that allocated megabytes read a length or count in the millions: the Coq evaluation would have to build
+		//  that number in unary; such inputs - refused for lack of data a moment later - are checked directly only)
+		if !ok || !modelled || len(input) > 6000 || res.AllocKB > 2048 || c17UnboundedCount(in.Type, input) || (!res.OK && c17ECErr.MatchString(res.Err)) {
 			co.hist["dec/"+tag+"(direct only)"]++
 			return
 		}
@@ -530,6 +703,13 @@ func (x *c17Runner) runCase(kind string, in c17Input) {
 				}
 			}
 			term = fmt.Sprintf("%s %s %s", ctor, coqBytes(input), impl)
+		} else if in.Type == "p2pmessage" {
+			dz := c17FrameDecompressed(input)
+			if c17FrameUnmodelled(input) || (input[0]&1 == 1 && dz == "None" && res.OK) {
+				co.hist["dec/"+tag+"(direct only)"]++ // a command outside the frame model, or a decompressed payload too long for a term
+				return
+			}
+			term = fmt.Sprintf("%s %s %s %s", ctor, coqBytes(input), dz, c17CoqDimpl(res))
 		} else {
 			term = fmt.Sprintf("%s %s %s", ctor, coqBytes(input), c17CoqDimpl(res))
 		}
@@ -829,7 +1009,8 @@ func c17RunModelled(x *c17Runner, r *rng, cf *commonFlags) {
 	for name := range c17Modelled {
 		_ = name
 	}
-	names := []string{"tx/bytes", "tx/stream", "signer", "cond", "attr", "witness", "header", "header/sr", "block", "block/sr", "item"}
+	names := []string{"tx/bytes", "tx/stream", "signer", "cond", "attr", "witness", "header", "header/sr", "block", "block/sr", "item",
+		"notification", "appexec", "mptnode", "mptroot", "nef", "version", "addr", "addrlist", "inventory", "getblocks", "getblockbyindex", "headers", "ping", "mptinventory", "mptdata", "extensible", "p2pmessage"}
 	for _, name := range names {
 		t := c17TypeByName(name)
 		var seeds [][]byte
